@@ -72,6 +72,15 @@ def render():
     return os.path.join(root, "sim")
 
 
+def run_env(variant):
+    """Environment for running a variant's binary."""
+    env = dict(os.environ)
+    if variant.startswith("D"):
+        env["HBSIM_ASAN"] = "1"
+        env["ASAN_OPTIONS"] = "detect_leaks=0:abort_on_error=1:symbolize=0"
+    return env
+
+
 def binary(variant):
     profile, group, toolchain, flags, triple = VARIANTS[variant]
     tdir = os.path.join(build_root(), "target-" + variant)
